@@ -31,7 +31,16 @@ class Injected(Exception):
     pass
 
 
-EXC_CLASSES = [Injected, TypeError, ValueError, RuntimeError, KeyError, AttributeError, AssertionError]
+class BackendGone(impl.engine.YPException):
+    """the application's own subclass of the ENGINE's exception class, with an attribute"""
+    def __init__(self, msg):
+        super().__init__(msg)
+        self.retry_after = 30
+
+
+# ... incl. the engine's own exception class and a subclass of it (what the engine raises itself it may want to
+# handle or rewrite - not when it comes out of the user's function)
+EXC_CLASSES = [Injected, TypeError, ValueError, RuntimeError, KeyError, AttributeError, AssertionError, impl.engine.YPException, BackendGone]
 
 
 SOLS = {('z', 0): [], ('y0', 0): [()], ('o', 1): [(C(1),)], ('m', 1): [(C(1),), (C(2),)], ('k', 1): [(C(1),)],
